@@ -140,6 +140,8 @@ def run(chk):
         cut_shapes = G.ALL_SHAPES
     for sc in G.cut_scenarios(cut_shapes, steps_of, all_compositions_upto=0 if quick else 8):
         scen.append(('cut', sc))
+    for sc in G.long_line_scenarios():
+        scen.append(('cut-long', sc))
     _dbg('enumerated', len(scen))
     ex, exres = gen_ex.result()
     _dbg('gen_ex', len(ex), exres['wall_s'])
@@ -189,7 +191,8 @@ def run(chk):
     str_cfg = ('SPECIFICATION TSpec\n' + G.constants(reject, 0, ['single'], 0, 'all', 99, 999, True, ['file'])
                + 'CONSTRAINT Record\nPOSTCONDITION Post\nCHECK_DEADLOCK FALSE\n')
     traces = [t for (_, _, t) in items]
-    strict_idx = [i for i, (o, _, _) in enumerate(items) if o != 'direct']
+    # the model has no line limit: over-long-line scenarios are monitored only
+    strict_idx = [i for i, (o, _, _) in enumerate(items) if o not in ('direct', 'cut-long')]
     nchunks = 4 if quick else 6
     size = max(1, (len(traces) + nchunks - 1) // nchunks)
 
